@@ -793,8 +793,9 @@ class Lemma:
                     if not known:
                         continue
                     nb = z3.simplify(nbytes)
-                    for j in range(nb.as_long()):
-                        S.require_eq(S.load(leaf.st.mem, arr.origin + j, 1), S.load(S.mem, arr.origin + j, 1), f'byte {j} of a newly created array')
+                    esz = 1 if (arr.el_type == DataType.BOOL or arr.el_type.byte_sized) else self.w
+                    for j in range(0, nb.as_long(), esz):
+                        S.require_eq(S.load(leaf.st.mem, arr.origin + j, esz), S.load(S.mem, arr.origin + j, esz), f'element at byte {j} of a newly created array')
                 if S.fresh_arrays:
                     S.require(r['ap'] == E['ap'] + S.alloc, 'ap is not advanced by exactly the size of the arrays the statements created')
                     self.allocating = True
@@ -945,8 +946,10 @@ class Lemma:
             n = z3.simplify(nbytes)
             if not z3.is_int_value(n):
                 raise SP.Undecided('array size is not concrete')
-            for j in range(n.as_long()):
-                S.require_eq(S.load(leaf.st.mem, arr.origin + j, 1), S.load(S.mem, arr.origin + j, 1), f'byte {j} of the new array')
+            # element by element (an element is one store on both sides; bool arrays and byte arrays: byte by byte)
+            esz = 1 if (arr.el_type == DataType.BOOL or arr.el_type.byte_sized) else self.w
+            for j in range(0, n.as_long(), esz):
+                S.require_eq(S.load(leaf.st.mem, arr.origin + j, esz), S.load(S.mem, arr.origin + j, esz), f'element at byte {j} of the new array')
             S.sync(leaf.st, 'at exit')
         self.simulate(leaves, lambda S: S.array_of(e), compare, P['SIM'])
         self.inv_at_exit([l for l in leaves if l.kind == 'exit'], P['INV'], ap_delta=self.term(static))
